@@ -13,6 +13,8 @@
      BR  saturating getter  rd_log             nunavutGetU8..64 / GetI* / GetF* (C), const_bitspan::getU8..64 (C++)
                                                                                          getter_defined, cpp_getter_defined
      BR+OA bulk read        rd_log, OA         nunavutGetBits(out, buffer, size, off, len)  getbits_defined
+     BW  zero run (C++)     void fields        bitspan::setZeros(length)                 cpp_zero_run_defined (+ the scanned byte accesses:
+                                                                                         Properties/C04.c04_cpp_setzeros_footprint)
    Sizes are those of an LP64 target: the buffer and every offset stay below 2^64 bits (`fits`). *)
 From Verif Require Import Wire Walker WalkerSafe CPrims CPrimsThm CppPrims CppPrimsThm CppPrimsMoreThm.
 From Coq Require Import Lia ZifyBool ZifyNat ZifyN.
@@ -97,4 +99,24 @@ Proof.
   destruct (get_bits_zero_ext output buf (blen buf) off (N.of_nat len)) as (r & Hr & _); try assumption; try lia.
   - unfold blen. lia.
   - rewrite Hr. discriminate.
+Qed.
+
+(* bitspan::setZeros on ANY span that holds the range - in particular one whose allocation ends exactly where the range ends - is
+   defined: no byte outside [off/8, ceil((off+len)/8)) is read or written (Prims/CppPrimsThm.setZeros_exact, C14) *)
+Theorem cpp_zero_run_defined s (len : N) : span_ok s -> bytes_ok (sp_data s) -> (len < two64)%N -> (len <= sp_bits s)%N ->
+  exists r, setZeros s len = Some (inl r).
+Proof.
+  intros Hs Hok Hl Hle. destruct (setZeros_exact s len Hs Hok Hl) as [_ H]. destruct (H Hle) as (r & Hr & _). exists r. exact Hr.
+Qed.
+
+(* the tight case spelled out: a buffer of exactly ceil((off+len)/8) bytes *)
+Theorem cpp_zero_run_tight (data : bytes) (off len : nat) : bytes_ok data -> fits data -> (1 <= len)%nat ->
+  length data = bytes_hi (off + len) ->
+  exists r, setZeros (mkspan data (blen data) (N.of_nat off)) (N.of_nat len) = Some (inl r).
+Proof.
+  intros Hok Hf Hl Hlen. unfold fits in Hf. unfold bytes_hi in Hlen.
+  assert (Hs : span_ok (mkspan data (blen data) (N.of_nat off))).
+  { unfold span_ok. cbn [sp_size sp_data sp_off]. unfold blen in *. repeat split; lia. }
+  apply cpp_zero_run_defined; [exact Hs | exact Hok | unfold blen in *; lia|].
+  rewrite (sp_bits_spec _ Hs). cbn [sp_size sp_off]. unfold blen. lia.
 Qed.
